@@ -306,6 +306,10 @@ func (r *runningRoutine) execute(
 		err = r.routine(ctx)
 	}
 	cancel()
+	if waitCh != nil {
+		// exitedCh also tells later instances that every earlier one has returned
+		<-waitCh
+	}
 	close(exitedCh)
 
 	r.r.bcast.HoldLock(func(broadcast func(), getWaitCh func() <-chan struct{}) {
